@@ -55,7 +55,14 @@ def gen_consts():
         os.makedirs(BUILD, exist_ok=True)
         r = subprocess.run([sys.executable, os.path.join(ROOT, 'tools', tool), REPO, out] + extra, capture_output=True, text=True)
         ok = ok and r.returncode == 0; msgs.append((r.stdout + r.stderr).strip())
-        if r.returncode != 0: failed.append(tool)
+        if r.returncode != 0:
+            failed.append(tool)
+            # a refused tree leaves the previous output in place, which may stem from another tree: fall back to the
+            # translation of the pinned tree so that the model (and the driver built from it) never depends on history
+            pin = os.path.join(LEAN, 'Sucds', 'Gen', name.replace('.lean', 'Pinned.txt'))
+            if os.path.exists(pin) and name != 'Fns.lean':
+                cur = open(out).read() if os.path.exists(out) else ''
+                if cur != open(pin).read(): open(out, 'w').write(open(pin).read())
     return ok, '; '.join(msgs), failed
 
 def theorems_of(module_file):
@@ -105,6 +112,19 @@ def scan_forbidden(modules):
             if FORBIDDEN.search(s): hits.append('%s:%d: %s' % (mod, i, line.strip()))
     return hits
 
+def rebuild_driver(res):
+    """the model driver for a tree whose proofs or translation failed: from the freshly generated constants/codecs if they
+    compile, else from the translation of the pinned tree (a consistent baseline: the expectations the driver computes are
+    the property-level specification, and every difference between it and the implementation is then reported as such)"""
+    rd = subprocess.run(['lake', 'build', 'sucds_model'], cwd=LEAN, capture_output=True, text=True, env=ENV)
+    if rd.returncode == 0: return True
+    for name in ('Consts', 'Codecs'):
+        pin = os.path.join(LEAN, 'Sucds', 'Gen', name + 'Pinned.txt'); out = os.path.join(LEAN, 'Sucds', 'Gen', name + '.lean')
+        if os.path.exists(pin) and open(pin).read() != (open(out).read() if os.path.exists(out) else ''): open(out, 'w').write(open(pin).read())
+    rd = subprocess.run(['lake', 'build', 'sucds_model'], cwd=LEAN, capture_output=True, text=True, env=ENV)
+    res.setdefault('notes', []).append('the model driver was built from the translation of the pinned tree (the current generated constants/codecs do not compile into the model)')
+    return rd.returncode == 0
+
 def lean_check(prop, tier='quick'):
     """build the property module and the driver, audit axioms. Returns dict(ok, failed, obligations, …)."""
     res = {'ok': True, 'errors': [], 'theorems': [], 'axioms': {}, 'obligations': 0, 'discharged': 0}
@@ -117,8 +137,7 @@ def lean_check(prop, tier='quick'):
             # a source the translators do not understand: the theorems cannot be re-stated over it
             res['ok'] = False; res['errors'].append('translator: ' + msg); res['failed_modules'] = ['Sucds.Gen (translator)']
             # the model driver must still be the one of the current tree (its generated constants), or its answers mean nothing
-            rd = subprocess.run(['lake', 'build', 'sucds_model'], cwd=LEAN, capture_output=True, text=True, env=ENV)
-            res['driver_fresh'] = rd.returncode == 0
+            res['driver_fresh'] = rebuild_driver(res)
             res['obligations'] = 1; return res
         if not ok: res['notes'] = ['codec translator refused the current sources (not this property\'s obligation): ' + msg[-300:]]
         mod = 'Sucds.Props.%s' % prop
@@ -152,8 +171,7 @@ def lean_check(prop, tier='quick'):
         res['obligations'] = len(all_thms)
         if r.returncode != 0:
             res['ok'] = False
-            rd = subprocess.run(['lake', 'build', 'sucds_model'], cwd=LEAN, capture_output=True, text=True, env=ENV)
-            res['driver_fresh'] = rd.returncode == 0
+            res['driver_fresh'] = rebuild_driver(res)
             errs = [l for l in (r.stdout + r.stderr).splitlines() if 'error' in l.lower()][:20]
             res['errors'] += errs
             failed_mods = re.findall(r'✖ \[\d+/\d+\] Building (\S+)', r.stdout + r.stderr)
